@@ -843,6 +843,11 @@ func (h *fsHandler) handleRequest(c context.Context, ctx *RequestContext) {
 		path = ctx.Path()
 	}
 	path = stripTrailingSlashes(path)
+	if h.pathRewrite != nil && len(path) > 0 && path[0] != '/' {
+		// the path is appended to the root directory's name: what a rewriter returns
+		// without a leading slash must not become part of that name ("/srv/www" + "-old/x")
+		path = append([]byte{'/'}, path...)
+	}
 
 	if n := bytes.IndexByte(path, 0); n >= 0 {
 		hlog.SystemLogger().Errorf("Cannot serve path with nil byte at position=%d, path=%q", n, path)
